@@ -342,11 +342,12 @@ def check_case(case):
 
 def signature(oracle, obs, suffix, pos):
     before, after = suffix[:pos], suffix[pos:]
-    if oracle.startswith('capture'):
-        ab = [s for s in after if s in USER_DISCARD]
-        if ab:
-            # a downstream *user* step that stops pulling: one finding per abandoning symbol
-            return 'abandoned-upstream/%s' % ab[0]
+    ab = [s for s in suffix if s in USER_DISCARD]
+    if ab:
+        # a *user* step that stops pulling its input breaks the stream protocol for everything around it (observers
+        # upstream capture a partial stream; with a sequential source the following resource starts inside the
+        # abandoned one): one finding per abandoning symbol
+        return 'abandoned-upstream/%s' % ab[0]
     if oracle == 'transparency':
         return '%s/%s/%s|%s' % (oracle, obs, '+'.join(before), '+'.join(after))
     return '%s/%s/after[%s]' % (oracle, obs, '+'.join(after))
